@@ -47,6 +47,20 @@ Theorem C13_params_change_takes_effect : forall s f,
 Proof. exact params_change_takes_effect. Qed.
 Print Assumptions C13_params_change_takes_effect.
 
+(* an assignment that throws stores nothing (host, hostname, protocol: a host that cannot be normalised after it passed the
+   syntactic check), and the protocol setter stores nothing that is not a scheme *)
+Theorem C13_throwing_assignment_stores_nothing : forall host_ok lower norm_host clean_path s v,
+  (snd (set_host host_ok lower norm_host clean_path s v) = true -> fst (set_host host_ok lower norm_host clean_path s v) = s) /\
+  (snd (set_hostname host_ok lower norm_host clean_path s v) = true -> fst (set_hostname host_ok lower norm_host clean_path s v) = s) /\
+  (snd (set_protocol host_ok lower norm_host clean_path s v) = true -> fst (set_protocol host_ok lower norm_host clean_path s v) = s).
+Proof. exact throwing_assignment_stores_nothing. Qed.
+Print Assumptions C13_throwing_assignment_stores_nothing.
+
+Theorem C13_protocol_needs_a_scheme : forall host_ok lower norm_host clean_path s p,
+  valid_scheme p = false -> set_protocol host_ok lower norm_host clean_path s p = (s, false).
+Proof. exact protocol_needs_a_scheme. Qed.
+Print Assumptions C13_protocol_needs_a_scheme.
+
 (* href, toString() and toJSON() re-encode a stale query and print the same url.URL: one function of the state *)
 Theorem C13_serialisers_agree :
   href_syncs_then_prints = true /\ tostring_syncs_then_prints = true /\ tojson_syncs_then_prints = true /\
